@@ -265,6 +265,30 @@ for q in sys.argv[1:]:
 print("ANSWERS " + json.dumps(out))
 '''
 
+CHILD_ENV = r'''
+# environment histories: answers that depend on the configured data folders (data / restricted / add-ons)
+import json, os, sys
+mode = sys.argv[1]
+import spsdk
+if mode == "info":
+    from spsdk.utils.misc import load_configuration
+    out = {"major": spsdk.version.major, "minor": spsdk.version.minor, "devices": sorted(os.listdir(os.path.join(spsdk.SPSDK_DATA_FOLDER, "devices")))}
+    for dev in sys.argv[2:]:
+        f = os.path.join(spsdk.SPSDK_DATA_FOLDER, "devices", dev, "database.yaml")
+        out[dev] = load_configuration(f) if os.path.exists(f) else None
+    print("ENVINFO " + json.dumps(out, default=str))
+else:
+    from spsdk.utils import database as D
+    devs, feats = sys.argv[2].split(","), sys.argv[3].split(",")
+    qi = D.DatabaseManager().quick_info
+    ans = {"families": {f: sorted(D.get_families(f)) for f in feats}, "all_features": sorted(qi.features_data.get_all_features)}
+    for d in devs:
+        ans["quick_info:" + d] = sorted(qi.devices.get_feature_list(d))
+        ans["get_device:" + d] = sorted(D.get_device(d).features_list)
+        ans["get_db:" + d] = sorted(D.get_db(d).features.keys())
+    print("ENVANS " + json.dumps(ans, sort_keys=True))
+'''
+
 HELPER = r'''
 # classification / preparation helper, run in a child with SPSDK importable and a scratch SPSDK_CACHE_FOLDER
 import glob, io, json, os, pickle, struct, sys
@@ -868,7 +892,7 @@ def _run(ck, work, only=None):
         phases[name] = round(time.time() - t_last[0], 1)
         t_last[0] = time.time()
 
-    ck.lean_obligations(generated=["CacheGuards", "CachePrograms"])
+    ck.lean_obligations(generated=["CacheGuards", "CachePrograms", "CacheFingerprint"])
     drv = ck.driver()
     mark("lean")
     rng = ck.rng
@@ -1200,6 +1224,14 @@ def _run(ck, work, only=None):
         shutil.rmtree(w, ignore_errors=True)
 
     mark("unusable+disabled")
+    # ---------------------------------------------------------------- environment histories (the fingerprint must see every configured folder)
+    sv = ck.stream("environment_histories", "multi-start histories of REAL fresh interpreters sharing ONE cache folder while the configured data folders change between "
+                   "starts: SPSDK_ADDONS_DATA_FOLDER unset / installed (overrides a device) / content updated / unset again, SPSDK_RESTRICTED_DATA_FOLDER unset / set / unset, "
+                   "a device file of SPSDK_DATA_FOLDER edited / reverted; after every start the answers (get_families, quick-info feature lists, get_device / get_db of the "
+                   "overridden devices) must equal those of a SPSDK_CACHE_DISABLED=1 start in the same environment; non-trivial = each (history, step)")
+    if wanted("environment_histories"):
+        run_env_histories(ck, c, sv, only, oin, par)
+    mark("env_histories")
     # ---------------------------------------------------------------- controlled schedules: real trace vs model, crashes injected
     sm = ck.stream("schedules", "2-4 REAL processes under the controlled scheduler (every cache action gated; random interleaving; in half of the runs one or two "
                    "processes are SIGKILLed at a random action, inside pickle.dump after 0 / half / all bytes) on every class of initial state; the observed schedule is "
@@ -1344,6 +1376,125 @@ def _run(ck, work, only=None):
         check_environment_stable(c)
 
 
+def run_env_child(folder, args, extra):
+    p = subprocess.run([PY, "-c", CHILD_ENV, *args], env=child_env(folder, extra=extra), capture_output=True, text=True, timeout=300)
+    for line in p.stdout.splitlines():
+        if line.startswith("ENVANS ") or line.startswith("ENVINFO "):
+            return {"rc": p.returncode, "answers": json.loads(line.split(" ", 1)[1]), "err": ""}
+    return {"rc": p.returncode, "answers": None, "err": err_class(p.stderr)}
+
+
+def run_env_histories(ck, c, sv, only, oin, par):
+    dev = "lpc55s69"
+    info = run_env_child(c.work / "hc", ["info", dev], None)["answers"] or {}
+    devices = info.get("devices", [])
+    dev2 = next((d for d in ("lpc55s36", "mimxrt1189", "k32w148") if d in devices and d != dev), None)
+    if not info.get(dev) or dev2 is None:
+        sv.expect(False, "setup", "cannot read the reference device files", info.get("devices", [])[:5])
+        return
+    info2 = run_env_child(c.work / "hc", ["info", dev2], None)["answers"] or {}
+    feats = [f for f in ("tz", "dat", "mbi", "pfr", "sb31", "cert_block") if f in info[dev].get("features", {})][:3]
+    feats2 = [f for f in ("mbi", "dat", "sb31", "tz", "pfr") if f in (info2.get(dev2) or {}).get("features", {})][:2]
+    if len(feats) < 2 or not feats2:
+        sv.expect(False, "setup", "reference devices lack the features used for the overrides", [feats, feats2])
+        return
+    f1, f2 = feats[0], feats[1]
+    g1 = feats2[0]
+    fixed = [
+        [{}, {"addons": [f1]}, {"addons": [f1, f2]}, {}],
+        [{"addons": [f1]}, {"addons": [f1, f2]}, {"addons": [f2]}],
+        [{}, {"restricted": [f1]}, {"restricted": [f1], "addons": [f2]}, {"addons": [f2]}, {"addons": [f1, f2]}],
+        [{}, {"data": [g1]}, {"data": [g1], "addons": [f1]}, {"addons": [f1]}],
+    ]
+    hists = list(fixed)
+    for k in range(ck.budget(1, 20)):
+        r = random.Random(f"{ck.seed}/envhist/{k}")
+        st, h = {}, []
+        for _ in range(r.randrange(3, 6)):
+            st = dict(st)
+            which = r.choice(["addons", "addons", "addons", "restricted", "data"])
+            pool = [g1] if which == "data" else feats
+            cur = st.get(which)
+            if cur is not None and r.random() < 0.3:
+                st.pop(which)
+            else:
+                st[which] = sorted(r.sample(pool, r.randrange(1, len(pool) + 1)))
+            h.append({k2: v for k2, v in st.items()})
+        hists.append(h)
+    if only is not None:
+        hists = [oin["history"]] if "history" in oin else []
+    want_feats = sorted(set(feats + feats2))
+
+    def do_hist(arg):
+        hi, hist = arg
+        root = new_folder(c, "eh")
+        cache = root / "cache"
+        cache.mkdir()
+        addons, restr = root / "addons", root / "restricted"
+        data = None
+        out = []
+        for si, st in enumerate(hist):
+            extra = {}
+            if "data" in st or data is not None:
+                if data is None:
+                    data = root / "data"
+                    shutil.copytree(DATA_FOLDER, data)
+                cfg = json.loads(json.dumps(info2[dev2]))
+                cfg["features"] = {k: v for k, v in cfg["features"].items() if k not in st.get("data", [])}
+                tgt = data / "devices" / dev2 / "database.yaml"
+                if "data" in st:
+                    tgt.write_text(json.dumps(cfg, indent=1))
+                else:
+                    shutil.copyfile(Path(DATA_FOLDER) / "devices" / dev2 / "database.yaml", tgt)
+                    os.utime(tgt)      # a restored file is a changed file as well
+                extra["SPSDK_DATA_FOLDER"] = str(data)
+            if "addons" in st:
+                d = addons / "devices" / dev
+                d.mkdir(parents=True, exist_ok=True)
+                (d / "database.yaml").write_text(json.dumps({"features": {k: v for k, v in info[dev]["features"].items() if k not in st["addons"]}}, indent=1))
+                extra["SPSDK_ADDONS_DATA_FOLDER"] = str(addons)
+            if "restricted" in st:
+                d = restr / "data" / "devices" / dev
+                d.mkdir(parents=True, exist_ok=True)
+                (restr / "metadata.yaml").write_text(json.dumps({"version": f"{info['major']}.{info['minor']}"}))
+                cfg = json.loads(json.dumps(info[dev]))
+                cfg["features"] = {k: v for k, v in cfg["features"].items() if k not in st["restricted"]}
+                (d / "database.yaml").write_text(json.dumps(cfg, indent=1))
+                extra["SPSDK_RESTRICTED_DATA_FOLDER"] = str(restr)
+            time.sleep(0.02)
+            args = ["query", f"{dev},{dev2}", ",".join(want_feats)]
+            cached = run_env_child(cache, args, extra)
+            ref = run_env_child(root / f"ref{si}", args, {**extra, "SPSDK_CACHE_DISABLED": "1"})
+            out.append((si, st, cached, ref))
+        shutil.rmtree(root, ignore_errors=True)
+        return hi, hist, out
+
+    with concurrent.futures.ThreadPoolExecutor(min(par, 6)) as ex:
+        results = list(ex.map(do_hist, list(enumerate(hists))))
+    base_ref = None
+    for hi, hist, out in results:
+        for si, st, cached, ref in out:
+            inp = {"history": hist, "step": si, "environment": st}
+            effect = "base" if not st else "+".join(sorted(st))
+            sv.note((hi, si, json.dumps(hist, sort_keys=True)), cls=effect)
+            if not st and ref["answers"] is not None:
+                base_ref = ref["answers"]
+            sv.expect(ref["rc"] == 0 and ref["answers"] is not None, inp, "the cache-disabled reference start fails in this environment", ref)
+            bad = {}
+            if cached["answers"] is not None and ref["answers"] is not None and cached["answers"] != ref["answers"]:
+                for k, v in ref["answers"].items():
+                    if cached["answers"].get(k) != v:
+                        bad[k] = {"with_cache": cached["answers"].get(k), "cache_disabled": v} if not isinstance(v, dict) else \
+                            {f: {"with_cache": cached["answers"][k].get(f), "cache_disabled": v[f]} for f in v if cached["answers"][k].get(f) != v[f]}
+            sv.expect(cached["rc"] == 0 and cached["answers"] == ref["answers"], inp,
+                      "after the configured data folders changed, a start with the (now stale) cache answers differently from a start with the cache disabled in the same "
+                      "environment: the stale cache passed the fingerprint check", {"rc": cached["rc"], "err": cached["err"], "differences": json.dumps(bad)[:1500]}, "equal answers")
+    # non-vacuity: the overrides really change the answers
+    if only is None and base_ref is not None:
+        changed = sum(1 for _, _, out in results for _, st, _, ref in out if st and ref["answers"] is not None and ref["answers"] != base_ref)
+        sv.expect(changed > 0, "non-vacuity", "no override of the histories changed any answer: the histories test nothing", changed)
+
+
 def check_environment_stable(c):
     """the quick-info fingerprint must still be the one of the reference cache; otherwise the data files changed under us"""
     from vcore import Infra
@@ -1359,7 +1510,7 @@ def replay(ck, data):
     """re-run exactly the recorded case (crash state / variant / scenario / observed schedule incl. kill points)."""
     case = (data.get("cases") or [{}])[0]
     only = {"stream": data.get("stream"), "input": case.get("input")}
-    if data.get("stream") not in ("crash_starts", "stale_starts", "concurrent_starts", "schedules", "model_exploration", "unusable_folder", "disabled_concurrent") or not isinstance(only["input"], dict):
+    if data.get("stream") not in ("crash_starts", "stale_starts", "concurrent_starts", "schedules", "model_exploration", "unusable_folder", "disabled_concurrent", "environment_histories") or not isinstance(only["input"], dict):
         return run(ck)
     ROOT.mkdir(exist_ok=True)
     work = ROOT / f"replay-{os.getpid()}-{ck.seed}"
